@@ -43,7 +43,7 @@ ObsNow  == ObsAt(c, Len(hist), idx)
 ObsPrev == IF Len(hist) = 0 THEN <<"n">> ELSE ObsAt(c, Len(hist) - 1, idx \div A)
 ObsInit == ObsAt(c, 0, 0)
 ExtraNow(name) == Line(c, Len(hist)).x[idx + 1][name]
-Raw == [i \in 1..Len(hist) |-> QFrac(hist[i], Unit)]
+Raw == Force([i \in 1..Len(hist) |-> QFrac(hist[i], Unit)])
 
 (* tolerance of a value comparison: tolNum/tolDen absolute, scaled by max(1, |expected|) *)
 TolQ(q, eps)  == QMul(eps, QMax(QOne, QAbs(q)))
